@@ -536,7 +536,7 @@ func init() {
 			return 300
 		},
 		ChunkSize:   6,
-		Rule:        "three monitors by case number. (codec) through the read-only exports: packets of 0-64 bytes (all sizes, several per run) and larger ones up to multi-buffer, split into 1-3 buffers, x sequence numbers {0,1,2,255,256,2^32-1,2^32,2^32+1,2^63,2^64-1}: encoded bytes equal an independent encoder of the documented layout, exact round trip, EVERY byte position x ALL 255 other values must be rejected (exhaustive for records <= 76 bytes, strided above), every truncation below 12 bytes rejected; longer truncations and 2-4 byte damage are measured only. (layout) every raw value handed to Persistence.Save during a concurrent publish/receive episode with connection losses (half of the episodes on a store whose Load hands out the stored slice itself: the stored bytes must stay what was saved) (2-6 goroutines on both levels, scheduling noise at the entry of Save, race detector on) is checked against the independent encoder, its packet part against the wire, sequence numbers unique. (damage) a real store holding a client identifier, PUBLISH, PUBREL and inbound marker record gets one byte altered or a truncation below 12 bytes, then AdoptSession and a first connection against the reference broker: the damaged bytes never appear in CONNECT or as a packet, and the damage is reported (warning, fatal, or ReadSlices error). Distinct by (part, size, sequence number, record kind, damage kind).",
+		Rule:        "three monitors by case number. (codec) through the read-only exports: packets of 0-64 bytes (all sizes, several per run) and larger ones up to multi-buffer, split into 1-3 buffers, x sequence numbers {0,1,2,255,256,2^32-1,2^32,2^32+1,2^63,2^64-1}: encoded bytes equal an independent encoder of the documented layout, exact round trip, EVERY byte position x ALL 255 other values must be rejected (exhaustive for records <= 76 bytes, strided above), every truncation below 12 bytes rejected; longer truncations and 2-4 byte damage are measured only. (layout) every raw value handed to Persistence.Save during a concurrent publish/receive episode with connection losses (half of the episodes on a store whose Load hands out the stored slice itself: the stored bytes must stay what was saved) (2-6 goroutines on both levels, scheduling noise at the entry of Save, race detector on) is checked against the independent encoder, its packet part against the wire, sequence numbers unique. (damage) a real store holding a client identifier, PUBLISH, PUBREL and inbound marker record gets one byte altered or a truncation below 12 bytes, then AdoptSession and a first connection against the reference broker: the damaged bytes never appear in CONNECT or as a packet, and the damage is reported (warning, fatal, or ReadSlices error). Every third of those cases alters the record of a pending transfer, or the client identifier, under a running client that loaded it before: what the next reconnect emits is the record as saved or nothing. Distinct by (part, size, sequence number, record kind, damage kind).",
 		Assumptions: []string{"FNV-1a detects every single-byte change by construction; the enumeration confirms the implementation, it is complete for the sizes listed", "multi-byte damage is not claimed: 32-bit checksum"},
 		Run: func(c *run.Ctx) {
 			switch c.Case % 3 {
@@ -552,6 +552,10 @@ func init() {
 			case 1:
 				layoutPart(c)
 			default:
+				if c.Case%9 == 8 {
+					liveDamage(c)
+					return
+				}
 				damagePart(c)
 			}
 		},
@@ -563,4 +567,113 @@ func init() {
 			}
 		},
 	})
+}
+
+// liveDamage alters a record under a running client that loaded it before:
+// the next Load (the resend of the next reconnect, the client identifier of
+// the next CONNECT) must notice, whatever the client remembers of the record.
+func liveDamage(c *run.Ctx) {
+	ep := newEpisode(c)
+	w := ep.W
+	defer w.Shutdown()
+	ep.F.Off = true
+	if err := ep.Init(); err != nil {
+		c.Violate("init-failed", err.Error(), nil)
+		return
+	}
+	w.Mu.Lock()
+	w.Broker.AckPolicy = func(b *sim.Broker, cn *sim.Conn, p *wire.Packet, reply []byte) string { return "hold" }
+	w.Mu.Unlock()
+	d := ep.D
+	d.StartReader()
+	level := 1 + c.Rng.Intn(2)
+	p := d.Publish(level, c.Rng.Intn(2) == 0, 20+c.Rng.Intn(40))
+	if !p.Accepted() {
+		c.Inconclusive("publish refused: " + p.Err.Error())
+		d.CloseAndWait()
+		return
+	}
+	reconnect := func(n int) bool {
+		cn := w.CurConn()
+		cn.EndInbound(-1, io.EOF)
+		return w.WaitUntil(sim.StepTimeout, func() bool { return len(w.Conns) >= n && (w.Conns[n-1].Closed() || w.ReaderQuietLocked()) })
+	}
+	w.WaitReaderQuiet(sim.StepTimeout)
+	// one reconnect with the record intact: it gets loaded and resent
+	if !reconnect(2) || !w.WaitUntil(sim.StepTimeout, func() bool { return w.PointCountLocked("connect.resent") >= 2 && w.ReaderQuietLocked() }) {
+		c.Inconclusive("first reconnect did not complete")
+		c.Spoiled()
+		return
+	}
+	// damage: the record of the pending transfer, or the client identifier
+	content := w.Store.Content()
+	key := uint(0)
+	kind := "client-identifier"
+	if c.Rng.Intn(3) != 0 {
+		kind = "pending-transfer"
+		for k := range content {
+			if k >= 0x8000 && k <= 0xffff {
+				key = k
+			}
+		}
+	}
+	orig := content[key]
+	if len(orig) < 13 {
+		c.Inconclusive("record too short")
+		d.CloseAndWait()
+		return
+	}
+	damaged := append([]byte{}, orig...)
+	pos := c.Rng.Intn(len(orig) - 12) // inside the packet part: the damage would show on the wire
+	damaged[pos] ^= byte(1 + c.Rng.Intn(255))
+	content[key] = damaged
+	w.Store.Plant(content)
+	how := fmt.Sprintf("%s record %#x: byte %d changed from %#02x to %#02x while the client runs", kind, key, pos, orig[pos], damaged[pos])
+	reads0 := d.ReadCount()
+	conns0 := len(w.Conns)
+	reconnect(conns0 + 1)
+	// the damage is reported by ReadSlices
+	if !w.WaitUntil(sim.StepTimeout, func() bool {
+		for _, r := range d.ReadsSnapshot()[min(reads0, len(d.ReadsSnapshot())):] {
+			if r.Err != nil && !errors.Is(r.Err, io.EOF) && !strings.Contains(r.Err.Error(), "EOF") {
+				return true
+			}
+		}
+		return false
+	}) {
+		// no report: then at least nothing damaged may have gone out; judged below
+		c.Count("live_damage_not_reported", 1)
+	}
+	w.Mu.Lock()
+	var bad []string
+	for _, cn := range w.Conns[conns0:] {
+		pk, rest, _ := wire.ParseStream(cn.Out, true)
+		for _, q := range pk {
+			switch {
+			case q.Type == wire.CONNECT && key == 0 && q.Connect != nil && q.Connect.ClientID != string(stripTrailer(orig)):
+				bad = append(bad, fmt.Sprintf("conn %d: CONNECT with client identifier %q", cn.Idx, q.Connect.ClientID))
+			case (q.Type == wire.PUBLISH && q.QoS > 0 || q.Type == wire.PUBREL) && key != 0:
+				want := append([]byte{}, stripTrailer(orig)...)
+				got := append([]byte{}, q.Raw...)
+				want[0] &^= 8
+				got[0] &^= 8
+				if uint(q.ID) == key && !bytes.Equal(want, got) {
+					bad = append(bad, fmt.Sprintf("conn %d: %s differs from the record as saved", cn.Idx, q))
+				}
+			}
+		}
+		_ = rest
+	}
+	w.Mu.Unlock()
+	for _, b := range bad {
+		c.Violate("damaged-bytes-emitted", how+": "+b, map[string]any{"trace_tail": w.TraceTail(60)})
+	}
+	c.Count("records_damaged_under_a_running_client", 1)
+	c.Trigger("live-damage|" + kind)
+	// put the record back so that the client can end in order
+	content[key] = orig
+	w.Store.Plant(content)
+	if !d.CloseAndWait() {
+		c.Spoiled()
+	}
 }
